@@ -126,7 +126,9 @@ func init() {
 						vio.Fatal("encrypt: %v", err)
 					}
 					// encryption is deterministic in (key, ctx, msg)? not demanded; only the round trip is
-					pt, err := peer.DecryptWithPrivKey(k2, encCtx(c.C2), mutateCt(ct, c.Mut, r))
+					in := mutateCt(ct, c.Mut, r)
+					keep := append([]byte{}, in...)
+					pt, err := peer.DecryptWithPrivKey(k2, encCtx(c.C2), in)
 					switch {
 					case err != nil:
 						res = "error"
@@ -134,6 +136,17 @@ func init() {
 						res = "ok"
 					default:
 						res = "other-plaintext"
+					}
+					// decrypting is a function of (key, context, ciphertext): it must not alter the caller's ciphertext, and a second
+					// attempt on the same buffer - after this one failed or succeeded - must give what a fresh copy gives
+					if !bytes.Equal(in, keep) {
+						res = "ciphertext-modified"
+					} else if res != "other-plaintext" {
+						pt2, err2 := peer.DecryptWithPrivKey(k, encCtx(c.Ctx), in)
+						ptf, errf := peer.DecryptWithPrivKey(k, encCtx(c.Ctx), append([]byte{}, keep...))
+						if (err2 == nil) != (errf == nil) || !bytes.Equal(pt2, ptf) {
+							res = "second-attempt-differs"
+						}
 					}
 				})
 				if pan != "" {
